@@ -179,6 +179,9 @@ func genCase(r *rand.Rand) cfgCase {
 		v, g := genString(r)
 		set(f, v, g)
 	}
+	if r.Intn(100) < 20 { // the old revision named by a ref of the project (among them `init` and `Init`: ordinary refs)
+		c.flags["old"] = cfgRefs[r.Intn(len(cfgRefs))]
+	}
 	if r.Intn(100) < 8 { // paths that filepath.Join cleans
 		c.flags["goat-package-path"] = pickStr(r, "./x//y/../z", "a/./b/", "../up", "/abs/p", "a/b/../../..", "internal/goat")
 	}
